@@ -378,7 +378,34 @@ Section Proofs.
   Proof.
     intros Hi Hs. exact (sim_steps _ _ Hs c0 c0 (asteps_refl _ _ _ _ _) (sim_init _ Hi)).
   Qed.
+  (* the same with schedules: the atomic-section execution moves the threads in the order in which the fine-grained
+     one moved them, minus the stutter steps - every atomic step happens where the same thread made a fine-grained
+     step (a section: where it made its Rel). Every thread's own order is kept. *)
+  Lemma sim_run c sch c' : vrun leqb guard rd wr c sch c' ->
+    forall a0 s0 a, arun leqb guard rd wr a0 s0 a -> sim c a ->
+    exists s' a', arun leqb guard rd wr a0 (s0 ++ s') a' /\ sublist s' sch /\ sim c' a'.
+  Proof.
+    induction 1 as [c|c i c1 s c2 Hs _ IH]; intros a0 s0 a Ha Hsim.
+    - exists [], a. rewrite app_nil_r. split; [exact Ha|split; [apply sl_nil|exact Hsim]].
+    - destruct (sim_step _ _ _ _ Hsim Hs) as (a1 & [->|Hst] & Hsim1).
+      + destruct (IH a0 s0 a Ha Hsim1) as (s' & a' & H1 & H2 & H3).
+        exists s', a'. split; [exact H1|split; [apply sl_skip; exact H2|exact H3]].
+      + destruct (IH a0 (s0 ++ [i]) a1 (arun_snoc _ _ _ _ _ _ _ _ _ Ha Hst) Hsim1) as (s' & a' & H1 & H2 & H3).
+        exists (i :: s'), a'. rewrite <- app_assoc in H1. cbn in H1.
+        split; [exact H1|split; [apply sl_keep; exact H2|exact H3]].
+  Qed.
+
+  Theorem reduction_schedule c0 sch c :
+    red_init leqb guard c0 -> vrun leqb guard rd wr c0 sch c -> quiescent c ->
+    exists sch' a, arun leqb guard rd wr c0 sch' a /\ sublist sch' sch /\
+                   thrs a = thrs c /\ forall m, objs a m = objs c m.
+  Proof.
+    intros Hi Hs Hq.
+    destruct (sim_run _ _ _ Hs c0 [] c0 (arun_nil _ _ _ _ _) (sim_init _ Hi)) as (s' & a & H1 & H2 & H3).
+    exists s', a. cbn in H1. destruct (sim_quiescent _ _ H3 Hq) as [E1 E2]. auto.
+  Qed.
 End Proofs.
+
 
 (* ------------------------------------------------------------------------------------------ *)
 (* the discipline is stable under an injective renaming of locks that commutes with guard (syntactic prefixes ->
